@@ -43,6 +43,7 @@ type loopInfo struct {
 	headState *State
 	preState  *State
 	decTerm   string
+	cands     []candidate
 }
 
 // Enc encodes one function into passive-form SMT and collects its obligations.
@@ -90,6 +91,11 @@ type Enc struct {
 	bounded     bool
 	curState    *State
 	nonEsc      map[ssa.Value]bool
+	curInstr    ssa.Instruction
+	freshDerived map[ssa.Value][]ssa.Value
+	freshEsc    map[ssa.Value][]ssa.Instruction // fresh heap values -> instructions at which they (or an alias) escape
+	blockReachT map[int]map[int]bool            // CFG reachability between blocks (reflexive only through cycles)
+	disabledCands map[string]bool
 	mathInts    bool // mode math: integers are unbounded mathematical integers (no range facts assumed)
 }
 
@@ -442,6 +448,75 @@ func (e *Enc) havocSort(st *State, s Sort) {
 	st.H[s] = nh
 }
 
+// notLocal: a value obtained from a callee or loaded from memory cannot point at a local allocation of this
+// activation whose address never escapes.
+func (e *Enc) notLocal(v Val) string {
+	if v.Bad || v.T == nil {
+		return "true"
+	}
+	var objs []string
+	var collect func(t types.Type, L []string) int
+	collect = func(t types.Type, L []string) int {
+		switch u := t.Underlying().(type) {
+		case *types.Pointer:
+			objs = append(objs, L[0])
+			return 2
+		case *types.Slice:
+			objs = append(objs, L[0])
+			return 4
+		case *types.Interface:
+			objs = append(objs, L[1])
+			return 3
+		case *types.Map, *types.Chan, *types.Signature:
+			objs = append(objs, L[0])
+			return 1
+		case *types.Struct:
+			k := 0
+			for i := 0; i < u.NumFields(); i++ {
+				k += collect(u.Field(i).Type(), L[k:])
+			}
+			return k
+		case *types.Tuple:
+			k := 0
+			for i := 0; i < u.Len(); i++ {
+				k += collect(u.At(i).Type(), L[k:])
+			}
+			return k
+		case *types.Array:
+			k := 0
+			for i := int64(0); i < u.Len(); i++ {
+				k += collect(u.Elem(), L[k:])
+			}
+			return k
+		}
+		ls, _ := e.M.leafSorts(t)
+		return len(ls)
+	}
+	ls, ok := e.M.leafSorts(v.T)
+	if !ok || len(ls) != len(v.L) {
+		return "true"
+	}
+	collect(v.T, v.L)
+	if len(objs) == 0 {
+		return "true"
+	}
+	var fs []string
+	for a := range e.nonEsc {
+		x, ok := e.vals[a]
+		if !ok || x.Bad || len(x.L) != 2 {
+			continue
+		}
+		if _, isAlloc := a.(*ssa.Alloc); !isAlloc {
+			continue
+		}
+		for _, o := range objs {
+			fs = append(fs, not(eq(o, x.L[0])))
+		}
+	}
+	sort.Strings(fs)
+	return and(fs...)
+}
+
 // notGhost: program pointers never point at the reserved ids of ghost variables.
 func (e *Enc) notGhost(obj string) string {
 	if e.M != ModeInt || len(e.CS.GhostOrd) == 0 {
@@ -540,8 +615,279 @@ func (e *Enc) computeNonEscaping() {
 	}
 }
 
+// computeFreshEscapes: for every value that denotes memory allocated in this activation (make, new, composite
+// literals, results of callees whose contract says the result is fresh), the instructions at which the value or an
+// alias of it becomes reachable from elsewhere: stored anywhere, passed to a callee without contract, captured,
+// converted to an interface, returned. Until such an instruction has executed, no callee can reach the object, so
+// calls without contract leave it unchanged.
+func (e *Enc) computeFreshEscapes() {
+	e.freshEsc = map[ssa.Value][]ssa.Instruction{}
+	e.freshDerived = map[ssa.Value][]ssa.Value{}
+	fn := e.Fn
+	// block reachability
+	e.blockReachT = map[int]map[int]bool{}
+	for _, b := range fn.Blocks {
+		seen := map[int]bool{}
+		var stack []*ssa.BasicBlock
+		stack = append(stack, b.Succs...)
+		for len(stack) > 0 {
+			x := stack[len(stack)-1]
+			stack = stack[:len(stack)-1]
+			if seen[x.Index] {
+				continue
+			}
+			seen[x.Index] = true
+			stack = append(stack, x.Succs...)
+		}
+		e.blockReachT[b.Index] = seen
+	}
+	isFreshCall := func(c *ssa.Call) bool {
+		_, key := e.calleeOf(c)
+		switch key {
+		case "slices.Clone", "maps.Clone", "slices.Concat", "strings.Fields", "strings.Split":
+			return true
+		}
+		return false
+	}
+	for _, b := range fn.Blocks {
+		for _, ins := range b.Instrs {
+			var src ssa.Value
+			switch x := ins.(type) {
+			case *ssa.MakeSlice:
+				src = x
+			case *ssa.Alloc:
+				if x.Heap {
+					src = x
+				}
+			case *ssa.Call:
+				if isFreshCall(x) {
+					src = x
+				}
+			}
+			if src == nil {
+				continue
+			}
+			var esc []ssa.Instruction
+			seen := map[ssa.Value]bool{}
+			var walk func(v ssa.Value, depth int)
+			walk = func(v ssa.Value, depth int) {
+				if seen[v] || depth > 8 {
+					return
+				}
+				seen[v] = true
+				refs := v.Referrers()
+				if refs == nil {
+					return
+				}
+				for _, r := range *refs {
+					switch y := r.(type) {
+					case *ssa.Store:
+						if y.Val == v {
+							esc = append(esc, y)
+						}
+					case *ssa.Slice:
+						walk(y, depth+1)
+					case *ssa.Phi:
+						if e.freshish(y, map[ssa.Value]bool{}, 0, isFreshCall) {
+							walk(y, depth+1)
+						}
+					case *ssa.ChangeType:
+						walk(y, depth+1)
+					case *ssa.Extract:
+						walk(y, depth+1)
+					case *ssa.IndexAddr, *ssa.FieldAddr:
+						// address computations: stores through them write the object itself, which is fine
+						walk(y.(ssa.Value), depth+1)
+					case *ssa.UnOp, *ssa.DebugRef, *ssa.BinOp, *ssa.If, *ssa.Index, *ssa.Lookup:
+					case *ssa.Return, *ssa.MakeInterface, *ssa.MakeClosure, *ssa.MapUpdate, *ssa.Send, *ssa.Go, *ssa.Defer:
+						esc = append(esc, y)
+					case *ssa.Call:
+						if bi, ok := y.Call.Value.(*ssa.Builtin); ok {
+							switch bi.Name() {
+							case "append", "copy":
+								walk(y, depth+1)
+							}
+							continue
+						}
+						_, key := e.calleeOf(y)
+						if ct := e.contractFor(key); ct != nil || isKnownPure(key) {
+							// a callee under contract does not retain its arguments; its results may alias them
+							if isContainer(y.Type()) {
+								walk(y, depth+1)
+							}
+							continue
+						}
+						esc = append(esc, y)
+					default:
+						esc = append(esc, r)
+					}
+				}
+			}
+			walk(src, 0)
+			e.freshEsc[src] = esc
+			for v := range seen {
+				e.freshDerived[src] = append(e.freshDerived[src], v)
+			}
+		}
+	}
+}
+
+// freshish: every object v can denote was allocated in this activation (or v is nil).
+func (e *Enc) freshish(v ssa.Value, seen map[ssa.Value]bool, depth int, isFreshCall func(*ssa.Call) bool) bool {
+	if depth > 10 {
+		return false
+	}
+	if seen[v] {
+		return true
+	}
+	seen[v] = true
+	switch x := v.(type) {
+	case *ssa.Const:
+		return x.Value == nil
+	case *ssa.MakeSlice:
+		return true
+	case *ssa.Alloc:
+		return true
+	case *ssa.Slice:
+		return e.freshish(x.X, seen, depth+1, isFreshCall)
+	case *ssa.ChangeType:
+		return e.freshish(x.X, seen, depth+1, isFreshCall)
+	case *ssa.Phi:
+		for _, ed := range x.Edges {
+			if !e.freshish(ed, seen, depth+1, isFreshCall) {
+				return false
+			}
+		}
+		return true
+	case *ssa.Extract:
+		return e.freshish(x.Tuple, seen, depth+1, isFreshCall)
+	case *ssa.Call:
+		if isFreshCall(x) {
+			return true
+		}
+		if bi, ok := x.Call.Value.(*ssa.Builtin); ok && bi.Name() == "append" {
+			return e.freshish(x.Call.Args[0], seen, depth+1, isFreshCall)
+		}
+		_, key := e.calleeOf(x)
+		if ct := e.contractFor(key); ct != nil && (len(ct.Modifies) > 0) {
+			// results of a contracted callee that updates its arguments in place alias those arguments or are new
+			for _, a := range x.Call.Args {
+				if isContainer(a.Type()) && !e.freshish(a, seen, depth+1, isFreshCall) {
+					return false
+				}
+			}
+			return true
+		}
+		return false
+	}
+	return false
+}
+
+// instrCanPrecede: instruction a may execute before (or is) instruction b on some path.
+func (e *Enc) instrCanPrecede(a, b ssa.Instruction) bool {
+	if a == b {
+		return true
+	}
+	ba, bb := a.Block(), b.Block()
+	if ba == nil || bb == nil {
+		return true
+	}
+	if ba == bb {
+		ia, ib := -1, -1
+		for i, x := range ba.Instrs {
+			if x == a {
+				ia = i
+			}
+			if x == b {
+				ib = i
+			}
+		}
+		if ia <= ib {
+			return true
+		}
+		return e.blockReachT[ba.Index][bb.Index] // around a loop
+	}
+	return e.blockReachT[ba.Index][bb.Index]
+}
+
+// variableContainers: object ids of the List and Indexes backing arrays of every expand.Variable value seen so far.
+// Containers stored in shell variables are never written in place (that discipline is what the C27 obligations
+// prove for interp, expand and internal), so calls without contract leave them unchanged.
+func (e *Enc) variableContainers() []string {
+	var objs []string
+	for v, x := range e.vals {
+		if x.Bad || x.T == nil || !isVariableType(x.T) {
+			continue
+		}
+		st, ok := x.T.Underlying().(*types.Struct)
+		if !ok {
+			continue
+		}
+		for i := 0; i < st.NumFields(); i++ {
+			switch st.Field(i).Name() {
+			case "List", "Indexes":
+				if lo, hi, ok := e.M.fieldLeafRange(st, i); ok && hi <= len(x.L) && hi-lo == 4 {
+					objs = append(objs, x.L[lo])
+				}
+			}
+		}
+		_ = v
+	}
+	sort.Strings(objs)
+	return objs
+}
+
 func (e *Enc) havocAll(st *State) {
 	keep := e.preservedObjs(st)
+	if vc := e.variableContainers(); len(vc) > 0 {
+		keep = append(keep, vc...)
+		e.assumptions["containers held by expand.Variable values are not written in place by callees (the discipline proved by the C27 obligations)"] = true
+	}
+	if e.curInstr != nil && e.freshEsc != nil {
+		for src, escs := range e.freshEsc {
+			x, ok := e.vals[src]
+			if !ok || x.Bad || len(x.L) < 1 {
+				continue
+			}
+			if si, isIns := src.(ssa.Instruction); isIns && !e.instrCanPrecede(si, e.curInstr) {
+				continue
+			}
+			escaped := false
+			for _, ei := range escs {
+				if e.instrCanPrecede(ei, e.curInstr) {
+					escaped = true
+					break
+				}
+			}
+			if !escaped {
+				keep = append(keep, x.L[0])
+				for _, d := range e.freshDerived[src] {
+					dv, ok := e.vals[d]
+					if !ok || dv.Bad {
+						continue
+					}
+					switch d.Type().Underlying().(type) {
+					case *types.Slice, *types.Pointer:
+						if di, isIns := d.(ssa.Instruction); isIns && !e.instrCanPrecede(di, e.curInstr) {
+							continue
+						}
+						keep = append(keep, dv.L[0])
+					case *types.Tuple:
+						// results of contracted calls: slice components
+						tup := d.Type().(*types.Tuple)
+						off := 0
+						for i := 0; i < tup.Len(); i++ {
+							ls, _ := e.M.leafSorts(tup.At(i).Type())
+							if _, isSl := tup.At(i).Type().Underlying().(*types.Slice); isSl && off < len(dv.L) {
+								keep = append(keep, dv.L[off])
+							}
+							off += len(ls)
+						}
+					}
+				}
+			}
+		}
+	}
 	for v := range e.nonEsc {
 		if x, ok := e.vals[v]; ok && !x.Bad && len(x.L) == 2 {
 			keep = append(keep, x.L[0])
